@@ -6,6 +6,7 @@ from harness.envs.base import EnvAdapter
 class Adapter(EnvAdapter):
     name = "Game2048"
     props = ("C01", "C03", "C04", "C05", "C07", "C08", "C09", "C10", "C12")
+    gen_heavy = {'n2': (60, 400), 'n3': (40, 300)}
     state_overrides = {"score": lambda v: int(round(float(v)))}
 
     def configs(self, tier):
